@@ -116,6 +116,7 @@ type FuncFacts struct {
 	spillOf map[*ssa.Alloc]*ssa.Parameter    // value parameters spilled to a local that is never written again
 	mutated map[string]bool                  // canonical receivers on which the function calls a mutator
 	ids     map[ssa.Value]int
+	doneIDs map[ssa.Instruction]int // "this call has been executed" facts (path-sensitive ordering)
 	escaped map[*ssa.Alloc]bool
 	pure    func(*ssa.Function) bool
 	// storedFields: fields (by struct type + index) stored to anywhere in the function
@@ -286,10 +287,12 @@ func (ff *FuncFacts) assume(s *factState, cond ssa.Value, b bool) {
 	switch x := cond.(type) {
 	case *ssa.Phi:
 		if ff.phiImpl != nil && x.Type().String() == "bool" {
-			if common, ok := ff.flagImplies(x, b, map[*ssa.Phi]bool{}); ok {
-				for f := range common {
-					s.facts[f] = true
-				}
+			want := fFALSE
+			if b {
+				want = fTRUE
+			}
+			for f := range ff.phiImplies(x, want, map[*ssa.Phi]bool{}) {
+				s.facts[f] = true
 			}
 		}
 	case *ssa.UnOp:
@@ -315,6 +318,16 @@ func (ff *FuncFacts) assume(s *factState, cond ssa.Value, b bool) {
 			_ = lc
 			if rIsC {
 				if rc.IsNil() {
+					// a merged value tested against nil: what holds on every edge that can supply such a value
+					if phi, ok := l.(*ssa.Phi); ok && ff.phiImpl != nil {
+						want := fNONNIL
+						if eq {
+							want = fNIL
+						}
+						for f := range ff.phiImplies(phi, want, map[*ssa.Phi]bool{}) {
+							s.facts[f] = true
+						}
+					}
 					if eq {
 						s.facts[fact{ff.canon(s, l), fNIL, ""}] = true
 						// streams.ToType returns a value whenever it returns a nil error
@@ -376,7 +389,21 @@ func (ff *FuncFacts) killValue(s *factState, v ssa.Value) {
 }
 
 // step applies one instruction to the state.
+func (ff *FuncFacts) doneName(ins ssa.Instruction) string {
+	n, ok := ff.doneIDs[ins]
+	if !ok {
+		n = len(ff.doneIDs) + 1
+		ff.doneIDs[ins] = n
+	}
+	return fmt.Sprintf("done:%d", n)
+}
+
 func (ff *FuncFacts) step(s *factState, ins ssa.Instruction) {
+	if _, ok := ins.(ssa.CallInstruction); ok {
+		if _, isGo := ins.(*ssa.Go); !isGo {
+			s.facts[fact{ff.doneName(ins), fTRUE, ""}] = true
+		}
+	}
 	switch x := ins.(type) {
 	case *ssa.Store:
 		if a, ok := x.Addr.(*ssa.Alloc); ok && !ff.escaped[a] {
@@ -447,7 +474,7 @@ func computeFacts(fn *ssa.Function) *FuncFacts {
 }
 
 func computeFactsUncached(fn *ssa.Function) *FuncFacts {
-	ff := &FuncFacts{fn: fn, in: map[*ssa.BasicBlock]*factState{}, at: map[ssa.Instruction]*factState{}, ids: map[ssa.Value]int{}, escaped: map[*ssa.Alloc]bool{}, fieldStored: map[string]bool{}}
+	ff := &FuncFacts{fn: fn, in: map[*ssa.BasicBlock]*factState{}, at: map[ssa.Instruction]*factState{}, ids: map[ssa.Value]int{}, doneIDs: map[ssa.Instruction]int{}, escaped: map[*ssa.Alloc]bool{}, fieldStored: map[string]bool{}}
 	if len(fn.Blocks) == 0 {
 		return ff
 	}
@@ -914,17 +941,19 @@ func contradictory(s *factState) bool {
 	return false
 }
 
-// flagImplies: the facts that hold whenever the boolean flag x (a phi of
-// constants, possibly through further phis) has value b: the intersection,
-// over the edges on which it can receive that value, of the facts carried by
-// those edges in the first pass. ok=false when some edge carries a computed
-// value (nothing can be said).
-func (ff *FuncFacts) flagImplies(x *ssa.Phi, b bool, seen map[*ssa.Phi]bool) (map[fact]bool, bool) {
+// phiImplies: the facts that hold whenever the merged value x has kind `want`
+// (true/false/nil/non-nil): the intersection, over the incoming edges that can
+// supply such a value, of the first-pass facts carried by the edge (plus the
+// fact that the incoming value has that kind). An edge is excluded when its
+// value is a constant of the other kind or is known, on that edge, to have the
+// other kind. Nil result: nothing is known (or no edge can supply it).
+func (ff *FuncFacts) phiImplies(x *ssa.Phi, want factKind, seen map[*ssa.Phi]bool) map[fact]bool {
 	seen[x] = true
 	es := ff.phiImpl[x.Block()]
 	if len(es) != len(x.Edges) {
-		return nil, false
+		return nil
 	}
+	opposite := map[factKind]factKind{fTRUE: fFALSE, fFALSE: fTRUE, fNIL: fNONNIL, fNONNIL: fNIL}[want]
 	var common map[fact]bool
 	meet := func(m map[fact]bool) {
 		if common == nil {
@@ -941,37 +970,55 @@ func (ff *FuncFacts) flagImplies(x *ssa.Phi, b bool, seen map[*ssa.Phi]bool) (ma
 		}
 	}
 	for i, e := range x.Edges {
-		if es[i] == nil {
+		st := es[i]
+		if st == nil {
 			continue // edge from an unreachable block
 		}
-		if v, isC := boolConst(e); isC {
-			if v == b {
-				meet(es[i].facts)
+		if c, isC := e.(*ssa.Const); isC {
+			isOpp := false
+			if c.IsNil() {
+				isOpp = opposite == fNIL
+			} else if c.Value != nil && c.Value.Kind() == constant.Bool {
+				if constant.BoolVal(c.Value) {
+					isOpp = opposite == fTRUE
+				} else {
+					isOpp = opposite == fFALSE
+				}
 			}
+			if isOpp {
+				continue
+			}
+			meet(st.facts)
 			continue
 		}
-		if ph, ok := e.(*ssa.Phi); ok {
-			if seen[ph] {
-				continue // the flag keeps its value round a loop
-			}
-			sub, ok := ff.flagImplies(ph, b, seen)
-			if !ok {
-				return nil, false
-			}
-			if sub == nil {
-				continue // the inner flag can never have this value
-			}
-			u := map[fact]bool{}
-			for f := range sub {
-				u[f] = true
-			}
-			for f := range es[i].facts {
-				u[f] = true
-			}
-			meet(u)
+		en := ff.canon(st, e)
+		if st.facts[fact{en, opposite, ""}] {
 			continue
 		}
-		return nil, false
+		if freshNonNil(e) && want == fNIL {
+			continue
+		}
+		u := map[fact]bool{}
+		for f := range st.facts {
+			u[f] = true
+		}
+		u[fact{en, want, ""}] = true
+		if ph, ok := e.(*ssa.Phi); ok && !seen[ph] {
+			for f := range ff.phiImplies(ph, want, seen) {
+				u[f] = true
+			}
+		}
+		meet(u)
 	}
-	return common, true
+	return common
+}
+
+// freshNonNil: the value is a newly made error (fmt.Errorf / errors.New).
+func freshNonNil(v ssa.Value) bool {
+	c, ok := v.(*ssa.Call)
+	if !ok {
+		return false
+	}
+	n := staticName(c)
+	return n == "fmt.Errorf" || n == "errors.New"
 }
